@@ -10,4 +10,6 @@ for d in c[0-9][0-9]; do
   [ -d "$d" ] || continue
   go test -c -tags verif -o /dev/null ./$d/
 done
+# C17 is built with the race detector: warm that part of the build cache too
+go test -c -race -tags verif -o /dev/null ./c17/
 echo setup ok
